@@ -114,7 +114,7 @@ Proof.
 Qed.
 
 Section Step.
-Variables (in_loop : bool) (st : fstate) (pst : pstate) (td t : tenv) (c : Z).
+Variables (in_loop : bool) (st : fstate) (pst : pstate) (fe : tstmt -> tenv) (t : tenv) (c : Z).
 Hypothesis HI : Inv st.
 Hypothesis HS : Sim pst st.
 Hypothesis HA : LenAgree t pst.
@@ -131,13 +131,13 @@ Proof.
   - unfold list_len. rewrite Hlk. now rewrite (rep_size _ _ _ Hr).
 Qed.
 
-(* ... also inside a function body: a parameter is never folded, a global is folded against its copy at the `def` *)
+(* ... also inside a function body: a parameter is never folded, a global is folded against its copy at the first call *)
 Lemma s_len_py : forall s n, needs_len s = true ->
   match s with
-  | TCallLen _ p y _ _ => Z.eqb y p || (mem y decl && fold_agrees td t y) = true
+  | TCallLen _ p y _ _ => Z.eqb y p || (mem y decl && fold_agrees (fe s) t y) = true
   | _ => True
   end ->
-  p_len pst (len_name s) = POk n -> s_len td t st s = n.
+  p_len pst (len_name s) = POk n -> s_len fe t st s = n.
 Proof.
   intros s n N G P. destruct s; try discriminate; cbn [s_len len_name] in *.
   - now apply f_len_py.
@@ -149,16 +149,16 @@ Proof.
     + destruct (p_ref pst y) as [o|] eqn:R; simpl in P; try discriminate. injection P as <-.
       destruct (sim_var pst st y o HI HS R) as (Py & Ho & l & Fy & Hlk & Hr).
       simpl in G. apply andb_true_iff in G. destruct G as [_ G]. unfold fold_agrees in G.
-      destruct (t_cur td y) as [c0|] eqn:E0.
+      destruct (t_cur (fe (TCallLen x p y sg k)) y) as [c0|] eqn:E0.
       * destruct (t_cur t y) as [c1|] eqn:E1; try discriminate. apply Nat.eqb_eq in G.
         rewrite <- G. now rewrite (HA y c1 o E1 Py).
       * unfold list_len. rewrite Hlk. now rewrite (rep_size _ _ _ Hr).
 Qed.
 
 Lemma step_use : forall s g l pst' out,
-  t_use_ok td decl t (s, g) = true ->
+  t_use_ok fe decl t (s, g) = true ->
   tp_stmt in_loop c decl pst s = POk l -> p_exec in_loop pst l = POk (pst', out) ->
-  exists st', f_exec in_loop st (t_lstmt in_loop decl s (s_len td t st s) c) = Safe (st', out) /\
+  exists st', f_exec in_loop st (t_lstmt in_loop decl s (s_len fe t st s) c) = Safe (st', out) /\
     Inv st' /\ Sim pst' st' /\ map fst (f_glob st') = decl /\ LenAgree (track1 (is_gated g) t s) pst'.
 Proof.
   intros s g l pst' out U T P. unfold t_use_ok in U.
@@ -166,7 +166,7 @@ Proof.
   rename U into Ud. rename U3 into Uu. rename U2 into Ug. rename U1 into Ur. rename U0 into Um.
   apply negb_true_iff in Ud.
   (* the statement the firmware executes is the one CPython executes *)
-  assert (El : t_lstmt in_loop decl s (s_len td t st s) c = l).
+  assert (El : t_lstmt in_loop decl s (s_len fe t st s) c = l).
   { unfold tp_stmt in T. destruct (needs_len s) eqn:N.
     - destruct (p_len pst (len_name s)) as [n|] eqn:Pn; simpl in T; try discriminate. injection T as <-.
       rewrite (s_len_py s n N); auto. destruct s; auto.
@@ -271,15 +271,15 @@ Qed.
 End Step.
 
 (* ------------------------------------------------------------------ blocks *)
-Lemma body_sim : forall td c ss t st pst pst' out,
+Lemma body_sim : forall (fe : tstmt -> tenv) c ss t st pst pst' out,
   Inv st -> Sim pst st -> LenAgree t pst ->
-  t_body_ok td t (map fst (f_glob st)) ss = true ->
+  t_body_ok fe t (map fst (f_glob st)) ss = true ->
   tp_block true c (map fst (f_glob st)) pst ss = POk (pst', out) ->
-  exists st', tf_block true c td t (map fst (f_glob st)) st ss = Safe (st', out) /\ Inv st' /\ Sim pst' st' /\
+  exists st', tf_block true c fe t (map fst (f_glob st)) st ss = Safe (st', out) /\ Inv st' /\ Sim pst' st' /\
     map fst (f_glob st') = map fst (f_glob st) /\
     LenAgree (fst (track true t (map fst (f_glob st)) ss)) pst'.
 Proof.
-  intros td c. induction ss as [|[s g] r IH]; intros t st pst pst' out HI HS HA G P.
+  intros fe c. induction ss as [|[s g] r IH]; intros t st pst pst' out HI HS HA G P.
   - simpl in *. injection P as <- <-. exists st. auto.
   - cbn [t_body_ok] in G. apply andb_true_iff in G. destruct G as [U G].
     assert (Ed : t_decl true (map fst (f_glob st)) s = map fst (f_glob st)).
@@ -291,7 +291,7 @@ Proof.
       destruct (p_exec true pst l) as [[p1 o1]|] eqn:E1; cbn [pbind] in P; try discriminate.
       destruct (tp_block true c (map fst (f_glob st)) p1 r) as [[p2 o2]|] eqn:E2; cbn [pbind] in P; try discriminate.
       injection P as <- <-.
-      destruct (step_use true st pst td t c HI HS HA s g l p1 o1 U T E1) as (st1 & F1 & HI1 & HS1 & N1 & HA1).
+      destruct (step_use true st pst fe t c HI HS HA s g l p1 o1 U T E1) as (st1 & F1 & HI1 & HS1 & N1 & HA1).
       rewrite <- N1 in G, E2.
       destruct (IH _ st1 p1 p2 o2 HI1 HS1 HA1 G E2) as (st2 & F2 & HI2 & HS2 & N2 & HA2).
       rewrite N1 in F2, HA2, N2.
@@ -331,7 +331,7 @@ Lemma setup_sim_t : forall ss t st pst pst' out,
   Inv st -> Sim pst st -> LenAgree t pst ->
   t_setup_ok t (map fst (f_glob st)) (ungated ss) = true ->
   tp_block false 0 (map fst (f_glob st)) pst (ungated ss) = POk (pst', out) ->
-  exists st', tf_block false 0 [] t (map fst (f_glob st)) st (ungated ss) = Safe (st', out) /\ Inv st' /\ Sim pst' st' /\
+  exists st', tf_block false 0 (fun _ => []) t (map fst (f_glob st)) st (ungated ss) = Safe (st', out) /\ Inv st' /\ Sim pst' st' /\
     snd (track false t (map fst (f_glob st)) (ungated ss)) = map fst (f_glob st') /\
     LenAgree (fst (track false t (map fst (f_glob st)) (ungated ss))) pst'.
 Proof.
@@ -346,10 +346,10 @@ Proof.
       cbn [pbind] in P; try discriminate.
     injection P as <- <-.
     pose proof HS as (Pl & Pn & Pnm & Pb & Hv).
-    assert (STEP : exists st1, f_exec false st (t_lstmt false (map fst (f_glob st)) s (s_len [] t st s) 0) = Safe (st1, o1) /\
+    assert (STEP : exists st1, f_exec false st (t_lstmt false (map fst (f_glob st)) s (s_len (fun _ => []) t st s) 0) = Safe (st1, o1) /\
                      Inv st1 /\ Sim p1 st1 /\ map fst (f_glob st1) = t_decl false (map fst (f_glob st)) s /\
                      LenAgree (track1 false t s) p1).
-    { assert (DECL : forall x cs v, l = t_lstmt false (map fst (f_glob st)) s (s_len [] t st s) 0 ->
+    { assert (DECL : forall x cs v, l = t_lstmt false (map fst (f_glob st)) s (s_len (fun _ => []) t st s) 0 ->
                 setup_ok (map fst (f_glob st)) [l] = Some (map fst (f_glob st) ++ [x]) ->
                 mem x (map fst (f_glob st)) = false ->
                 t_decl false (map fst (f_glob st)) s = map fst (f_glob st) ++ [x] ->
@@ -386,37 +386,37 @@ Proof.
       - apply andb_true_iff in U. destruct U as [U _]. apply andb_true_iff in U. destruct U as [U _].
         assert (Ed := U). unfold t_use_ok in Ed. repeat (apply andb_true_iff in Ed; destruct Ed as [Ed ?]).
         apply negb_true_iff in Ed. rewrite (t_decl_use false _ _ Ed) by auto.
-        destruct (step_use false st pst [] t 0 HI HS HA _ None l p1 o1 U T E1) as (st1 & F1 & HI1 & HS1 & N1 & HA1).
+        destruct (step_use false st pst (fun _ => []) t 0 HI HS HA _ None l p1 o1 U T E1) as (st1 & F1 & HI1 & HS1 & N1 & HA1).
         exists st1. auto.
       - apply andb_true_iff in U. destruct U as [U _]. apply andb_true_iff in U. destruct U as [U _].
         assert (Ed := U). unfold t_use_ok in Ed. repeat (apply andb_true_iff in Ed; destruct Ed as [Ed ?]).
         apply negb_true_iff in Ed. rewrite (t_decl_use false _ _ Ed) by auto.
-        destruct (step_use false st pst [] t 0 HI HS HA _ None l p1 o1 U T E1) as (st1 & F1 & HI1 & HS1 & N1 & HA1).
+        destruct (step_use false st pst (fun _ => []) t 0 HI HS HA _ None l p1 o1 U T E1) as (st1 & F1 & HI1 & HS1 & N1 & HA1).
         exists st1. auto.
       - apply andb_true_iff in U. destruct U as [U _]. apply andb_true_iff in U. destruct U as [U _].
         assert (Ed := U). unfold t_use_ok in Ed. repeat (apply andb_true_iff in Ed; destruct Ed as [Ed ?]).
         apply negb_true_iff in Ed. rewrite (t_decl_use false _ _ Ed) by auto.
-        destruct (step_use false st pst [] t 0 HI HS HA _ None l p1 o1 U T E1) as (st1 & F1 & HI1 & HS1 & N1 & HA1).
+        destruct (step_use false st pst (fun _ => []) t 0 HI HS HA _ None l p1 o1 U T E1) as (st1 & F1 & HI1 & HS1 & N1 & HA1).
         exists st1. auto.
       - apply andb_true_iff in U. destruct U as [U _]. apply andb_true_iff in U. destruct U as [U _].
         assert (Ed := U). unfold t_use_ok in Ed. repeat (apply andb_true_iff in Ed; destruct Ed as [Ed ?]).
         apply negb_true_iff in Ed. rewrite (t_decl_use false _ _ Ed) by auto.
-        destruct (step_use false st pst [] t 0 HI HS HA _ None l p1 o1 U T E1) as (st1 & F1 & HI1 & HS1 & N1 & HA1).
+        destruct (step_use false st pst (fun _ => []) t 0 HI HS HA _ None l p1 o1 U T E1) as (st1 & F1 & HI1 & HS1 & N1 & HA1).
         exists st1. auto.
       - apply andb_true_iff in U. destruct U as [U _]. apply andb_true_iff in U. destruct U as [U _].
         assert (Ed := U). unfold t_use_ok in Ed. repeat (apply andb_true_iff in Ed; destruct Ed as [Ed ?]).
         apply negb_true_iff in Ed. rewrite (t_decl_use false _ _ Ed) by auto.
-        destruct (step_use false st pst [] t 0 HI HS HA _ None l p1 o1 U T E1) as (st1 & F1 & HI1 & HS1 & N1 & HA1).
+        destruct (step_use false st pst (fun _ => []) t 0 HI HS HA _ None l p1 o1 U T E1) as (st1 & F1 & HI1 & HS1 & N1 & HA1).
         exists st1. auto.
       - apply andb_true_iff in U. destruct U as [U _]. apply andb_true_iff in U. destruct U as [U _].
         assert (Ed := U). unfold t_use_ok in Ed. repeat (apply andb_true_iff in Ed; destruct Ed as [Ed ?]).
         apply negb_true_iff in Ed. rewrite (t_decl_use false _ _ Ed) by auto.
-        destruct (step_use false st pst [] t 0 HI HS HA _ None l p1 o1 U T E1) as (st1 & F1 & HI1 & HS1 & N1 & HA1).
+        destruct (step_use false st pst (fun _ => []) t 0 HI HS HA _ None l p1 o1 U T E1) as (st1 & F1 & HI1 & HS1 & N1 & HA1).
         exists st1. auto.
       - apply andb_true_iff in U. destruct U as [U _]. apply andb_true_iff in U. destruct U as [U _].
         assert (Ed := U). unfold t_use_ok in Ed. repeat (apply andb_true_iff in Ed; destruct Ed as [Ed ?]).
         apply negb_true_iff in Ed. rewrite (t_decl_use false _ _ Ed) by auto.
-        destruct (step_use false st pst [] t 0 HI HS HA _ None l p1 o1 U T E1) as (st1 & F1 & HI1 & HS1 & N1 & HA1).
+        destruct (step_use false st pst (fun _ => []) t 0 HI HS HA _ None l p1 o1 U T E1) as (st1 & F1 & HI1 & HS1 & N1 & HA1).
         exists st1. auto.
       - (* a call in front of the `def`: excluded *)
         apply andb_true_iff in U. destruct U as [_ U]. discriminate. }
@@ -442,7 +442,7 @@ Qed.
 
 Lemma passes_sim_t : forall t0 body cs st pst pst',
   Inv st -> Sim pst st -> LenAgree t0 pst ->
-  t_body_ok t0 t0 (map fst (f_glob st)) body = true ->
+  t_body_ok (first_env t0 body) t0 (map fst (f_glob st)) body = true ->
   t_compat t0 (fst (track true t0 (map fst (f_glob st)) body)) = true ->
   tp_passes (map fst (f_glob st)) body pst cs = POk pst' ->
   exists st', tf_passes t0 (map fst (f_glob st)) body st cs = Safe st' /\ Inv st' /\ Sim pst' st'.
@@ -451,7 +451,7 @@ Proof.
   - injection P as <-. exists st. auto.
   - destruct (tp_block true c (map fst (f_glob st)) pst body) as [[p1 o1]|] eqn:E; cbn [pbind] in P; try discriminate.
     simpl in P.
-    destruct (body_sim t0 c body t0 st pst p1 o1 HI HS HA G E) as (st1 & F & HI1 & HS1 & N1 & HA1).
+    destruct (body_sim (first_env t0 body) c body t0 st pst p1 o1 HI HS HA G E) as (st1 & F & HI1 & HS1 & N1 & HA1).
     unfold tf_pass. rewrite F. cbn [rbind]. rewrite clear_loc by auto. simpl.
     pose proof (compat_agree _ _ _ C HA1) as HA0.
     rewrite <- N1 in *. eapply IH; eauto.
@@ -542,10 +542,10 @@ Proof. vm_compute. reflexivity. Qed.
 Lemma shadow_ok_python : exists pst, run_py_t shadow_ok_setup shadow_ok_body [0; 0]%Z = POk pst /\ p_live pst = 4.
 Proof. eexists. split; vm_compute; reflexivity. Qed.
 
-(* inside a function body len() of a parameter is NEVER folded: whatever the copies at the `def`, whatever the parameter
+(* inside a function body len() of a parameter is NEVER folded: whatever the copies where the function is parsed, whatever the parameter
    is called (the name of a global list included), the firmware evaluates __redu_len of the argument *)
-Theorem param_len_unfolded : forall td t st x p sg k,
-  s_len td t st (TCallLen x p p sg k) = Z.of_nat (list_len (f_lookup st x)).
+Theorem param_len_unfolded : forall fe t st x p sg k,
+  s_len fe t st (TCallLen x p p sg k) = Z.of_nat (list_len (f_lookup st x)).
 Proof.
   intros. cbn [s_len]. unfold fn_env. rewrite t_cur_untrack. unfold mem. cbn [existsb].
   now rewrite Z.eqb_refl.
@@ -557,7 +557,7 @@ Proof.
   now rewrite (proj2 (existsb_eqb_In p params) H).
 Qed.
 
-(* ... and a global that no parameter shadows keeps the copy it had at the `def` *)
+(* ... and a global that no parameter shadows keeps the copy it has where the function is parsed *)
 Theorem fn_env_global : forall td params y, ~ In y params -> t_cur (fn_env td params) y = t_cur td y.
 Proof.
   intros td params y H. unfold fn_env. rewrite t_cur_untrack. unfold mem.
